@@ -13,10 +13,15 @@
     [bitmap.Bit]        [i]            any int i                -> [MaskUpto[i]; RMaskUpto[i]; Bit[i]; RBit[i]]  (P outside 0..63)
     [bitmap.Fmt]        [sz; signed; slice; xs]  Fmt of one integer (slice = 0, xs = [x]) or of a slice of integers of
                                        sz bytes (1,2,4,8; signed only tells the harness which Go type to build);
-                                       any other sz = a non-integer type (string / []string)  -> the string (P = panic) *)
+                                       any other sz = a non-integer type (string / []string)  -> the string (P = panic)
+    [bitmap.Of/query]   [ps; opt; tr; i; e]   r = Of(ps, opt...), 0 <= i <= e <= 64 len(r), i < 64 len(r), 1 <= e
+                                       -> [Rank64(r, IndexRank64(r, tr), i); Rank128(r, IndexRank128(r), i);
+                                           NextOne(r, i, e); PrevOne(r, i, e)]
+    [bitmap.Builder/query] [n; ops; tr; i; e]  the same four queries on Words after the history *)
 From Coq Require Import ZArith List Bool String.
 From Low Require Import Lib.Bits Lib.BitSeq Lib.Val Model.BuilderOps Model.BitmapOf Spec.OfSpec
-  Model.BitmapMask Spec.MaskSpec Model.BitmapFmt Spec.FmtSpec.
+  Model.BitmapMask Spec.MaskSpec Model.BitmapFmt Spec.FmtSpec
+  Model.Rank Model.BitmapNext Spec.OfQuerySpec.
 Import ListNotations.
 Open Scope string_scope.
 Open Scope Z_scope.
@@ -191,4 +196,56 @@ Definition ops_C12_wide : list opdef := [
        | _ => VBad end) |}
 ].
 
-Definition ops_C12 : list opdef := ops_C12_core ++ ops_C12_wide.
+(** * widening: the constructors composed with the readers of C01 and C13 *)
+Definition vpz (p : Z * Z) : val := VL [VZ (fst p); VZ (snd p)].
+Definition run_query (r : list Z) (tr : bool) (i e : Z) : val :=
+  match Rank64 r (IndexRank64 r tr) i, Rank128 r (IndexRank128 r) i, NextOne r i e, PrevOne r i e with
+  | Some a, Some b, Some c, Some d => VL [vpz a; vpz b; VZ c; VZ d]
+  | _, _, _, _ => VPanic
+  end.
+Definition vquery (q : (Z * Z) * (Z * Z) * Z * Z) : val :=
+  let '(a, b, c, d) := q in VL [vpz a; vpz b; VZ c; VZ d].
+Definition range_ok (nbits i e : Z) : bool :=
+  (0 <=? i) && (i <=? e) && (e <=? nbits) && (i <? nbits) && (1 <=? e).
+
+Fixpoint bfoldM (b : builder) (ops : list bop) : option builder :=
+  match ops with
+  | [] => Some b
+  | o :: t => bind (bstep b o) (fun b' => bfoldM b' t)
+  end.
+
+Definition ops_C12_query : list opdef := [
+  {| op_name := "bitmap.Of/query";
+     op_run := fun a => match a with
+       | [ps; opt; tr; i; e] => match as_zs ps, as_opt opt, as_bool tr, as_z i, as_z e with
+           | Some ps, Some opt, Some tr, Some i, Some e =>
+               if query_dom ps opt i e then
+                 match Of ps opt with Some r => run_query r tr i e | None => VPanic end
+               else VBad
+           | _, _, _, _, _ => VBad end
+       | _ => VBad end;
+     op_spec := fun_spec (fun a => match a with
+       | [ps; opt; tr; i; e] => match as_zs ps, as_z i, as_z e with
+           | Some ps, Some i, Some e => vquery (spec_query (usort ps) i e)
+           | _, _, _ => VBad end
+       | _ => VBad end) |};
+  {| op_name := "bitmap.Builder/query";
+     op_run := fun a => match a with
+       | [n; ops; tr; i; e] => match as_z n, as_bops ops, as_bool tr, as_z i, as_z e with
+           | Some n, Some ops, Some tr, Some i, Some e =>
+               if (0 <=? n) && forallb bop_dom ops then
+                 match bind (NewBuilder n) (fun b => bfoldM b ops) with
+                 | Some b => if range_ok (64 * zlen (Words b)) i e then run_query (Words b) tr i e else VBad
+                 | None => VPanic end
+               else VBad
+           | _, _, _, _, _ => VBad end
+       | _ => VBad end;
+     op_spec := fun_spec (fun a => match a with
+       | [n; ops; tr; i; e] => match as_bops ops, as_z i, as_z e with
+           | Some ops, Some i, Some e =>
+               vquery (spec_query (usort (abits (fold_left astep ops {| abits := []; aoff := 0 |}))) i e)
+           | _, _, _ => VBad end
+       | _ => VBad end) |}
+].
+
+Definition ops_C12 : list opdef := ops_C12_core ++ ops_C12_wide ++ ops_C12_query.
